@@ -42,7 +42,7 @@ Theorem cnfshuffle_is_renaming : forall rep env argv stdin oracle dest t,
   cnfshuffle_main_gen rep env argv stdin oracle = ShmOut dest t ->
   exists o N F out flips perm cperm,
     shm_parse_args env argv = PaOk o /\ dest = so_output o /\
-    parse_dimacs true (shm_input_text env o stdin) = DOk N F /\
+    parse_dimacs (shm_universal o) (shm_input_text env o stdin) = DOk N F /\
     (forall u, parse_dimacs u t = DOk N out) /\
     0 <= N /\ lits_in_range N F = true /\ lits_in_range N out = true /\
     length out = length F /\ Permutation (map (@length Z) F) (map (@length Z) out) /\
@@ -69,7 +69,7 @@ Theorem cnfshuffle_options_independent : forall rep env argv stdin oracle dest t
   cnfshuffle_main_gen rep env argv stdin oracle = ShmOut dest t ->
   exists o N F out sigma,
     shm_parse_args env argv = PaOk o /\
-    parse_dimacs true (shm_input_text env o stdin) = DOk N F /\
+    parse_dimacs (shm_universal o) (shm_input_text env o stdin) = DOk N F /\
     (forall u, parse_dimacs u t = DOk N out) /\
     signed_map N sigma /\ Permutation out (map (map sigma) F) /\
     (so_nop o = true -> forall l, inrange N l -> (0 < sigma l <-> 0 < l)) /\
@@ -85,7 +85,7 @@ Theorem cnfshuffle_fixed_is_identity : forall rep env argv stdin o,
   forall oracle,
     cnfshuffle_main_gen rep env argv stdin oracle = cnfshuffle_main_gen rep env argv stdin [] /\
     forall dest t, cnfshuffle_main_gen rep env argv stdin oracle = ShmOut dest t ->
-      exists N F, parse_dimacs true (shm_input_text env o stdin) = DOk N F /\
+      exists N F, parse_dimacs (shm_universal o) (shm_input_text env o stdin) = DOk N F /\
                   t = print_dimacs (shm_out_header env o) None N F /\
                   forall u, parse_dimacs u t = DOk N F.
 Proof. exact shm_fixed_identity. Qed.
@@ -107,7 +107,7 @@ Print Assumptions cnfshuffle_total_refuted.
 Theorem cnfshuffle_total_partial : forall env argv stdin oracle,
   cnfshuffle_main_env env argv stdin oracle = ShmCrash ->
   exists o N F, shm_parse_args env argv = PaOk o /\
-                parse_dimacs true (shm_input_text env o stdin) = DOk N F /\ so_nop o = true /\ 2 ^ 63 <= N.
+                parse_dimacs (shm_universal o) (shm_input_text env o stdin) = DOk N F /\ so_nop o = true /\ 2 ^ 63 <= N.
 Proof. exact shm_crash_only_overflow. Qed.
 Print Assumptions cnfshuffle_total_partial.
 
